@@ -79,6 +79,7 @@ def generate_parse_rule(chk: Check, eng: Engine, rule: str) -> None:
 def run(chk: Check, eng: Engine) -> None:
     chk.rule("R16-a", "a read-only (generator-owned) node is never the target of a substitution", floor=2)
     chk.rule("R16-b", "generated children are marked read-only on every path before the generated subtree is attached", floor=2)
+    chk.rule("R16-h", "what Grammar.generate returns is used for the request at hand and never kept in a container that outlives the call (no memo of generator output)", floor=2)
     chk.rule("R16-c", "a generator value that does not parse under the symbol's rule raises; nothing substitutes it", floor=3)
     chk.rule("R16-d", "when a generator argument was replaced the generated children are re-derived (or the sources are cleared)", floor=2)
     chk.rule("R16-e", "mutation and crossover choose their targets among writable nodes only", floor=4)
@@ -122,6 +123,17 @@ def run(chk: Check, eng: Engine) -> None:
             escapes = [n for n in cfg.nodes if n.kind == "stmt" and n.ast is not None and (
                 (isinstance(n.ast, ast.Return) and n.ast.value is not None and mentions(n.ast.value)) or
                 any(isinstance(c, ast.Call) and call_name(c) in ("add_child", "set_children", "append", "extend", "insert") and any(mentions(a_) for a_ in c.args) for c in ast.walk(n.ast)))]
+            # R16-h: what a generator returned is used for this request - it is never kept in a container that outlives the call
+            stored = [n for n in cfg.nodes if n.kind == "stmt" and isinstance(n.ast, ast.Assign) and any(isinstance(t, ast.Subscript) for t in n.ast.targets) and mentions(n.ast.value)]
+            for st in stored:
+                chk.bad("R16-h", eng.relfile(f), st.line, f.fq, f"`{short(st.ast, 60)}` keeps the output of `{short(call.value, 40)}` beyond the call",
+                        "generators are the spec's own code (random, stateful, different from spec to spec): a memo of their output - keyed by symbol and argument text - hands one spec's "
+                        "value to another spec with a same-named symbol, or an old value to a revised generator; the field is then not what its generator computes from the recorded arguments",
+                        keyparts=f"generator-output-memoised|{f.qualname}")
+            if not stored:
+                chk.ok("R16-h", f.fq, call.lineno, f"the output of `{short(call.value, 40)}` is not stored in any container")
+            if not escapes and stored:
+                continue  # reported above; the sealing question of R16-b is moot for a value that comes out of a memo
             if not escapes:
                 raise AnalysisError(f"{f.fq}: the output of generate(...) neither escapes nor is attached")
             seals = [l for l in sealing_loops(f.node) if isinstance(l.iter, ast.Attribute) and isinstance(l.iter.value, ast.Name) and l.iter.value.id == gvar and l.iter.attr in ("children", "_children")]
@@ -361,6 +373,8 @@ _G = "src/fandango/language/grammar/grammar.py"
 _MU = "src/fandango/evolution/mutation.py"
 _CX = "src/fandango/evolution/crossover.py"
 MUTANTS = [
+    M("generator-output-memoised-per-arguments", "src/fandango/language/grammar/grammar.py", "        generated = self.generate(tree.nonterminal, tree.sources)\n        # Prevent children from being overwritten without executing generator\n        for child in generated.children:\n            child.set_all_read_only(True)\n        return generated.children\n",
+      "        key = (tree.nonterminal, tuple(hash(s) for s in tree.sources))\n        if key not in self._generated:\n            generated = self.generate(tree.nonterminal, tree.sources)\n            for child in generated.children:\n                child.set_all_read_only(True)\n            self._generated[key] = generated.children\n        return [c.deepcopy(copy_parent=False) for c in self._generated[key]]\n", "R16-h"),
     M("regen-failure-logged-and-ignored", _T, "            else:\n                new_tree.set_children(grammar.derive_generator_output(new_tree))\n",
       "            else:\n                try:\n                    new_tree.set_children(grammar.derive_generator_output(new_tree))\n                except Exception as e:\n                    warnings.warn(str(e))\n", "R16-d"),
     M("repair-unfreezes-the-live-source", "src/fandango/constraints/comparison.py", "            source_copy = self._source.deepcopy(\n                copy_children=True, copy_params=False, copy_parent=False\n            )\n            source_copy.set_all_read_only(False)\n",
